@@ -331,6 +331,16 @@ def _other_env(env):
 
 
 def _call_cnf(api, env, f):
+    if api.endswith("@fresh-env"):
+        # the formula rebuilt in a brand-new environment (its counters of generated names start at zero)
+        env3 = Environment()
+        push_env(env3)
+        try:
+            f3 = termio.build(env3, termio.dump(f))
+            cls = rw.CNFizer if api.startswith("CNFizer") else rw.PolarityCNFizer
+            return cls(environment=env3).convert_as_formula(f3)
+        finally:
+            pop_env()
     if api.endswith("@other-env"):
         env2 = _other_env(env)
         f2 = env2.formula_manager.normalize(f)
@@ -995,6 +1005,20 @@ def make_ack(env, profile, res, part):
             res.outcome("skipped:not-a-formula")
             return
         info = {}
+        if part.get("fresh_env"):
+            env3 = Environment()
+            push_env(env3)
+            try:
+                v = ack_verdict(env3, termio.build(env3, termio.dump(f)), cfg, {}, info)
+            finally:
+                pop_env()
+            res.count("conversions")
+            res.count("nontrivial" if info.get("k", 0) > 0 else "trivial")
+            res.outcome("ack-fresh-env:%s" % ("ok" if v is None else "FAIL:" + v[0]))
+            if v is not None:
+                res.violation(part["name"], "ack:fresh-environment:%s" % v[0], "%s: %s" % (part["name"], v[1]),
+                              {"part": part["name"], "kind": "ack", "term": termio.dump(f), "cfg": _cfg_json(cfg)})
+            return
         v = ack_verdict(env, f, cfg, cmemo, info)
         if v is None and prev[0] is not None:
             # the same Ackermannizer object used for the previous formula of the enumeration first
@@ -1075,6 +1099,9 @@ def skeleton_profile(alphabet, consts=(True, False), natoms=3):
         m = p.m
         if alphabet == "bool":
             atoms = [p.sym(n, BOOL) for n in "abc"]
+        elif alphabet == "freshnames":
+            # user symbols named like the definition variables the converters generate
+            atoms = [p.sym(n, BOOL) for n in ("FV0", "FV1", "FV2")]
         elif alphabet == "lia":
             x, y = p.sym("x", INT), p.sym("y", INT)
             atoms = [m.LE(x, y), m.LT(y, x), m.Equals(x, m.Int(0))]
@@ -1116,7 +1143,15 @@ def ack_profile(variant):
         INC = lambda m, a: m.Plus(a, one)
         PR = lambda m, a, b: m.Function(pr, [a, b])
         EQ = lambda m, a, b: m.Equals(a, b)
-        if variant == "chain":
+        if variant == "freshnames":
+            # the symbols are named like the constants the Ackermannizer generates
+            k0, k1 = p.sym("ack0", INT), p.sym("ack1", INT)
+            p.leaf(INT, k0, k1)
+            p.op("f", [INT], INT, F)
+            p.op("inc", [INT], INT, INC)
+            p.op("eq", [INT, INT], BOOL, EQ)
+            p.op("p", [INT, INT], BOOL, PR)
+        elif variant == "chain":
             # unary chains f/g/+1 over x, y; atoms t1 = t2 and p(t1, t2)
             p.leaf(INT, x, y)
             p.op("f", [INT], INT, F)
@@ -1212,6 +1247,8 @@ def parts(ctx):
         cnf("cnf-bool-d2-tern-top", "bool", 2, 32, mid_ops=_names(*_BIN), top_ops=_names(*_TERN), max_new=1)
         cnf("cnf-bool-d2-tern-mid", "bool", 2, 32, natoms=2, consts=(False,), mid_ops=_names("not", *_TERN),
             top_ops=_names(*_BIN))
+    cnf("cnf-freshnames-d2", "freshnames", 2, 8, consts=(), apis=("CNFizer@fresh-env", "PolarityCNFizer@fresh-env"),
+        mid_ops=_names("not", "and", "or", "iff"), top_ops=_names("and", "or", "iff", "implies"))
     cnf("cnf-bool-d2-ite", "bool", 2, 16, natoms=2, consts=(), mid_ops=_names("not", "iff", "bite"),
         top_ops=_names("not", "and", "iff", "bite"))
     # ---- CNF, depth 3 (shared sub-formulas, IFF/ITE in both polarities), two atoms
@@ -1239,6 +1276,7 @@ def parts(ctx):
     ack("ack-chain-d1", "chain", 2, 2, mid_ops=_names("f", "g", "inc"), top_ops=_names("eq", "p"))
     ack("ack-chain-d2", "chain", 3, 16, mid_ops=_names("f", "g", "inc"), top_ops=_names("eq", "p"))
     ack("ack-chain-d3", "chain", 4, 32, mid_ops=_names("f", "g", "inc"), top_ops=_names("eq", "p"), max_new=1)
+    ack("ack-freshnames-d2", "freshnames", 3, 8, mid_ops=_names("f", "inc"), top_ops=_names("eq", "p"), fresh_env=True)
     ack("ack-bool-d1", "bool", 1, 16, top_ops=_names("not", "and", "implies", "iff") if q else None)
     ack("ack-boolarg-d3", "boolarg", 3, 16, top_ops=_names("eq", "r", "and"), max_new=1 if q else None)
     ack("ack-ite-d3", "ite", 3, 16, mid_ops=_names("f", "g", "ite"), top_ops=_names("eq", "p"),
